@@ -347,4 +347,55 @@ theorem toM_isotropify (d : Nat) (an : List ℝ) :
     have hk : k < (setAnis d an).length := by simpa using hlen
     simp [List.getElem?_eq_getElem hk]
 
+/-! ### ang2dir -/
+
+theorem prodL_eq (l : List ℝ) : prodL l = l.prod := by
+  rw [prodL, Nat.cast_one, List.prod_eq_foldl]
+
+/-- the components of `ang2dir` after the first one, by recursion on the angle list -/
+noncomputable def dirRest : List ℝ → List ℝ
+  | [] => []
+  | a :: t => (t.map Real.sin).prod * Real.cos a :: dirRest t
+
+theorem length_dirRest (l : List ℝ) : (dirRest l).length = l.length := by
+  induction l with
+  | nil => rfl
+  | cons a t ih => simp [dirRest, ih]
+
+theorem dirRest_eq (angles : List ℝ) :
+    (idxRange 1 (angles.length + 1)).map (fun i =>
+        prodL ((angles.map Transc.sin).drop i) * Transc.cos (angles[i - 1]?.getD ((0:Nat):ℝ)))
+      = dirRest angles := by
+  induction angles with
+  | nil => simp [idxRange, dirRest]
+  | cons a t ih =>
+    have hr : idxRange 1 ((a :: t).length + 1) = 1 :: (idxRange 1 (t.length + 1)).map (· + 1) := by
+      simp only [idxRange, List.length_cons, Nat.add_sub_cancel]
+      rw [List.range'_succ]
+      congr 1
+      apply List.ext_getElem
+      · simp
+      · intro n h1 h2
+        simp [List.getElem_range']
+        omega
+    have hsin : (Transc.sin : ℝ → ℝ) = Real.sin := rfl
+    have hcos : (Transc.cos : ℝ → ℝ) = Real.cos := rfl
+    rw [hr, List.map_cons, List.map_map, dirRest, ← ih]
+    congr 1
+    · simp [prodL_eq, hsin, hcos]
+    · apply List.map_congr_left
+      intro i hi
+      have h1 : 1 ≤ i := (mem_idxRange.1 hi).1
+      obtain ⟨k, rfl⟩ : ∃ k, i = k + 1 := ⟨i - 1, by omega⟩
+      simp
+
+theorem sqSum_dir (l : List ℝ) :
+    (((l.map Real.sin).prod :: dirRest l).map fun v => v * v).sum = 1 := by
+  induction l with
+  | nil => simp [dirRest]
+  | cons a t ih =>
+    simp only [List.map_cons, List.prod_cons, List.sum_cons, dirRest] at ih ⊢
+    have h := Real.sin_sq_add_cos_sq a
+    nlinarith [h, ih]
+
 end GSV.Lemmas.Geo
